@@ -247,7 +247,9 @@ class BADS:
 
         # evaluate  starting point non-bound constraint
         if non_box_cons is not None:
-            if np.any(np.asarray(non_box_cons(self.x0)) > 0):
+            # (a copy: a constraint function that works in place on its
+            # argument must not move the starting point)
+            if np.any(np.asarray(non_box_cons(self.x0.copy())) > 0):
                 self.logger.error(
                     "Initial starting point X0 does not satisfy non-bound constraints (non_box_cons)."
                 )
